@@ -126,6 +126,23 @@ func takerScenarios(r *rng, n int) []scn {
 func init() {
 	monitors["C04"] = func(r *rng, n int, res *MonitorResult) {
 		res.Rule = "taker scenarios on Liquid (rest-state × stimulus sweep, pay-gate runs at boundary heights/CLTVs incl. near 2^32, random disturbed runs with crashes) on the real machines; every claim payment call judged against anchor window, invoice CLTV and route limit; non-trivial = a Liquid claim payment call was made; distinct = distinct scenarios with such a call"
+		// the height the pay loop is GIVEN must be the chain's: with the LWK/Electrum back-end the loop asks the
+		// watcher, whose header goroutine also runs the confirmation callbacks
+		for i := 0; i < 3; i++ {
+			tip, entered := c04LwkTipWhileCallbackRuns()
+			res.Evaluations++
+			res.Distinct++
+			switch {
+			case !entered:
+				res.Histogram["lwk: confirmation callback not reached"]++
+			case tip < 1061:
+				res.Histogram["lwk: tip frozen while a confirmation callback runs"]++
+				res.addFinding("C04/lwk/tip-frozen-while-confirmation-callback-runs", fmt.Sprintf("the LWK watcher still answers tip %d while the Electrum server has announced 1061: the confirmation callback (which runs the claim-payment loop) blocks the header goroutine, so the window check [anchor, anchor+60) of every further payment attempt — of this and of every queued swap — sees a stale height", tip),
+					map[string]interface{}{"schedule": "anchor 1000, window 60; tx in block 1058; header 1059 -> confirmed -> callback blocks (payment in flight); headers 1060, 1061 announced; GetBlockHeight asked for 500 ms"})
+			default:
+				res.Histogram["lwk: tip advances while a confirmation callback runs"]++
+			}
+		}
 		seen := map[string]bool{}
 		runMany(defaultCfg(), takerScenarios(r, n), func(x scnResult) {
 			res.Evaluations++
